@@ -137,6 +137,10 @@ pub(crate) fn verif_opcode_table() -> Vec<(u8, String, Vec<usize>)> {
 pub struct Bytecode {
     pub constants: Vec<Object>,
     pub instructions: Vec<u8>,
+
+    /// Where execution starts. Everything before that is the code of programs that the same compiler
+    /// compiled earlier (its functions can still be called, like from a later line in the REPL).
+    pub start: usize,
 }
 
 pub struct Compiler {
@@ -198,9 +202,14 @@ impl Compiler {
         let num_globals = self.symbols.num_globals();
         let num_constants = self.constants.len();
 
-        let result = self.compile_program(ast);
+        // The code of earlier programs is kept, because function values that were created by them
+        // (and are still around in global variables) refer to it
+        let start = self.instructions.len();
+        self.last_instruction = None;
+
+        let result = self.compile_program(ast, start);
         if result.is_err() {
-            self.instructions.clear();
+            self.instructions.truncate(start);
             self.last_instruction = None;
             self.loop_contexts.clear();
             self.pending_operands = 0;
@@ -212,7 +221,7 @@ impl Compiler {
         result
     }
 
-    fn compile_program(&mut self, ast: &BlockStmt) -> Result<Bytecode, Error> {
+    fn compile_program(&mut self, ast: &BlockStmt, start: usize) -> Result<Bytecode, Error> {
         // Call compile_statement on each child node directly
         // We don't re-use compile_block_statement here because it exits the global scope
         for s in ast {
@@ -230,7 +239,8 @@ impl Compiler {
 
         Ok(Bytecode {
             constants: self.constants.clone(),
-            instructions: std::mem::take(&mut self.instructions),
+            instructions: self.instructions.clone(),
+            start,
         })
     }
 
